@@ -623,6 +623,117 @@ def label_selftest(repo, verbose=True):
     return bad
 
 
+# the same for the STRING mode of the encoder (bench parser proofs, C11): one symbolic str argument that ranges over a list of
+# concrete lines; find / slicing / strip / split / startswith / in / upper are the operations the parser is made of
+STRING_DOMAIN = ['a = AND(b, c)', 'INPUT(x)', ' x1=NOT( y )', 'OUTPUT(out)', '#c', '', 'g=vdd', 'A  =  OR(B,C) ', 'q=BUFF(p)\n', 'noparen = x']
+STRING_CASES = {
+    'predicates-and-find': '''
+def f(s):
+    return (s.startswith('INPUT'), '=' in s, s.find('('), s.find(')'), len(s), s.startswith('#'), s == '', s.find('=') < s.find('('))
+''',
+    'strip-and-case': '''
+def f(s):
+    return (s.strip(' '), s.strip(' \\n'), s.strip(' ') == s, s.upper().startswith('INPUT'), s.strip(') \\n'), s[7:].strip(') \\n'))
+''',
+    'slices': '''
+def f(s):
+    i = s.find('(')
+    j = s.find(')')
+    if i == -1 or j == -1:
+        return ('none', 'none', s[:3])
+    return (s[:i].strip(' '), s[i + 1:j].strip(' '), s[:3])
+''',
+}
+
+
+def string_selftest(repo, verbose=True):
+    import ast
+    import z3
+    from .interp import explore
+    from .values import Sym, VList
+    bad = []
+    for name, src in STRING_CASES.items():
+        g = {}
+        exec(compile(src, '<strtest>', 'exec'), g)
+        native = g['f']
+        it = Interp(repo)
+        from .models import install_loop_rule
+        install_loop_rule(it)
+        it.string_mode = True
+        m = ModuleV('__strtest__', repo + '/__strtest__.py')
+        it.ctx = Ctx([])
+        for _ in it.exec_block(ast.parse(src).body, m.env, m):
+            pass
+        S = z3.String('s')
+
+        def run(ctx):
+            it.ctx = ctx
+            it.depth = 0
+            ctx.assume(z3.Or([S == z3.StringVal(c) for c in STRING_DOMAIN]))
+            return it.call(m.env['f'], [Sym(S)], {})
+        try:
+            paths = explore(run)
+        except Exception as e:
+            bad.append(f'selftest strings {name}: exploration crashed: {e!r}')
+            continue
+        n_unsup = sum(1 for _, o in paths if o[0] == 'unsupported')
+        problems = []
+
+        def equal_term(v, w):
+            if isinstance(v, Sym) or z3.is_expr(v):
+                t = v.t if isinstance(v, Sym) else v
+                if isinstance(w, bool):
+                    return (t == w) if z3.is_bool(t) else False
+                if isinstance(w, int):
+                    return (t == w) if z3.is_int(t) else False
+                if isinstance(w, str):
+                    return (t == z3.StringVal(w)) if t.sort() == z3.StringSort() else False
+                return False
+            if isinstance(v, (tuple, VList)) and isinstance(w, (tuple, list)):
+                xs = list(v) if isinstance(v, tuple) else v.items
+                if len(xs) != len(w):
+                    return False
+                parts = [equal_term(x, y) for x, y in zip(xs, w)]
+                if any(p_ is False for p_ in parts):
+                    return False
+                parts = [p_ for p_ in parts if p_ is not True]
+                return z3.And(parts) if parts else True
+            return (type(v) is type(w)) and v == w
+        for c in STRING_DOMAIN:
+            want = native(c)
+            hit = 0
+            for ctx, out in paths:
+                sol = z3.Solver()
+                sol.set('timeout', 10000)
+                sol.add(*ctx.pc)
+                sol.add(S == z3.StringVal(c))
+                r = sol.check()
+                if r == z3.unsat:
+                    continue
+                hit += 1
+                if r != z3.sat or out[0] == 'unsupported':
+                    continue                    # undecided feasibility / outside the subset: nothing is claimed
+                if out[0] != 'return':
+                    problems.append(f'{c!r}: path ends with {out[0]} but CPython returns {want}')
+                    continue
+                eq = equal_term(out[1], want)
+                if eq is False:
+                    problems.append(f'{c!r}: symbolic path gives {out[1]}, CPython gives {want}')
+                    continue
+                if eq is True:
+                    continue
+                sol.add(eq)
+                if sol.check() == z3.unsat:
+                    problems.append(f'{c!r}: CPython gives {want}, which the symbolic path excludes (result {out[1]})')
+            if hit == 0:
+                problems.append(f'{c!r}: NO explored path covers this input (lost path)')
+        if problems:
+            bad.append(f'selftest strings {name}: {len(problems)} problems, first: {problems[0]}')
+        if verbose:
+            print(f'selftest strings {name}: {len(paths)} paths ({n_unsup} outside the subset), {len(STRING_DOMAIN)} inputs, ' + ('agree' if not problems else f'PROBLEMS: {problems[:2]}'))
+    return bad
+
+
 def symbolic_selftest(repo, verbose=True):
     import ast
     import itertools
@@ -775,6 +886,7 @@ def main(repo, verbose=True):
     bad.extend(frame_selftest(repo, verbose))
     bad.extend(symbolic_selftest(repo, verbose))
     bad.extend(label_selftest(repo, verbose))
+    bad.extend(string_selftest(repo, verbose))
     return bad
 
 
@@ -785,7 +897,7 @@ if __name__ == '__main__':
     if '--json' in sys.argv:
         import json
         n = main(env.REPO, verbose=False)
-        print('JSON ' + json.dumps({'problems': n, 'info': {'scripts': len(SCRIPTS), 'frame_rule_cases': len(FRAME_CASES), 'symbolic_differential_cases': len(SYM_CASES) + len(LABEL_CASES)}}))
+        print('JSON ' + json.dumps({'problems': n, 'info': {'scripts': len(SCRIPTS), 'frame_rule_cases': len(FRAME_CASES), 'symbolic_differential_cases': len(SYM_CASES) + len(LABEL_CASES) + len(STRING_CASES)}}))
         sys.exit(0 if not n else 3)
     n = main(env.REPO)
     for msg in n:
